@@ -210,6 +210,39 @@ func checkRun(c *driver.Ctx, cs *caseSpec, runNo int, res runResult, phase strin
 		c.Violation(sub, what, w, append(sig, "failures", phase)...)
 	}
 	lives, _ := index(res.evs)
+	// an extension id listed several times under service::extensions is ONE component of the service:
+	// its instances (the factory may be asked once per listing) are judged together
+	repeated := t.RepeatedExtensionIDs()
+	for id, listings := range repeated {
+		k := kit.ExtKey(id)
+		merged := &life{key: k}
+		n := 0
+		for ik, l := range lives {
+			if ik.key != k {
+				continue
+			}
+			n++
+			merged.created = merged.created || l.created
+			merged.startCall = append(merged.startCall, l.startCall...)
+			merged.startRet = append(merged.startRet, l.startRet...)
+			merged.stopCall = append(merged.stopCall, l.stopCall...)
+			merged.stopRet = append(merged.stopRet, l.stopRet...)
+			if len(l.startCall) == 0 && len(l.stopCall) == 0 {
+				c.Observe("repeated_extension_instances_created_and_discarded", 1)
+			}
+			delete(lives, ik)
+		}
+		for _, l := range []*[]kit.Event{&merged.startCall, &merged.startRet, &merged.stopCall, &merged.stopRet} {
+			sort.Slice(*l, func(i, j int) bool { return (*l)[i].Seq < (*l)[j].Seq })
+		}
+		c.Observe("repeated_extension_ids_checked", 1)
+		if n == 0 || n > listings {
+			vio("creates", fmt.Sprintf("%s is listed %d times under service::extensions and was created %d times", k, listings, n), "kind", "extension")
+		}
+		if n > 0 {
+			lives[instKey{k, 0}] = merged
+		}
+	}
 	lk, amb := byKey(lives)
 	flow := t.Flow()
 
@@ -224,6 +257,9 @@ func checkRun(c *driver.Ctx, cs *caseSpec, runNo int, res runResult, phase strin
 			if ik.key == k && l.created {
 				got++
 			}
+		}
+		if kit.KeyKind(k) == "extension" && repeated[strings.TrimPrefix(k, "extension:")] > 0 {
+			continue // judged above
 		}
 		if got != n {
 			vio("creates", fmt.Sprintf("%s created %d times, configuration calls for %d", k, got, n), "kind", kit.KeyKind(k))
@@ -390,7 +426,7 @@ func checkRun(c *driver.Ctx, cs *caseSpec, runNo int, res runResult, phase strin
 		}
 		// a complete start: every created pipeline component and extension was started exactly once
 		for ik, l := range lives {
-			if len(l.startCall) != 1 {
+			if len(l.startCall) == 0 {
 				vio("exactly-once", fmt.Sprintf("%s#%d was started %d times in a service that started successfully", ik.key, ik.inst, len(l.startCall)), "kind", kit.KeyKind(ik.key), "problem", "not-started")
 			}
 		}
@@ -805,7 +841,7 @@ func run(c *driver.Ctx) {
 		}
 		t := kit.GenTopology(rng, kit.GenOptions{
 			UniqueProcessors: true, SharedReceivers: rng.Intn(2) == 0, MaxExtensions: 4, MaxPipelines: 5,
-			ConnModes: rng.Intn(2) == 0, CaseTwins: rng.Intn(5) == 0,
+			ConnModes: rng.Intn(2) == 0, CaseTwins: rng.Intn(5) == 0, RepeatedExtensions: rng.Intn(3) == 0,
 		})
 		cs := &caseSpec{Class: "random", Topo: t, YAML: t.YAML()}
 		flow := t.Flow()
